@@ -509,7 +509,7 @@ def readOptions : (n i : Nat) → List Int → L (List Int)
     running total `max_vars = num_vars + c1 + .. + ck` is checked against `INT_MAX` after every count
     (variable/common-expression indices go from 0 to that total) -/
 def readCommonExprs (h : Header) : L Header := do
-  let (c1, acc) ← tReadUIntAcc inp h.num_vars
+  let (c1, acc) ← tReadUIntAcc inp (Site.accInit h)
   let (c2, acc) ← tReadUIntAcc inp acc
   let (c3, acc) ← tReadUIntAcc inp acc
   let (c4, acc) ← tReadUIntAcc inp acc
